@@ -1,20 +1,22 @@
 import EaselModel.Shuffle.Model
-/-! # Run-time monitor of the binary64 facts that the Markov / IID support theorems trust (C18, support only)
+/-! # Run-time monitor of the binary64 facts L1–L5 behind the Markov / IID theorems (C18, support only)
 
 The theorems `iid_support`, `{c,x}Markov0_spec`, `{c,x}Markov1_spec`, `sampleDirty_never_gap` are proved over any number
-type satisfying `LawfulCNum` (`LemmasChoose.lean`); ℚ is a proved instance. For `α = Float` (what the C code and the
-driver compute with) the four laws are TRUSTED, not proved (Lean's `Float` is opaque). They are used at exactly these
-instances, `=` meaning equality of bit patterns:
+type satisfying `LawfulCNum` (`LemmasChoose.lean`). Round 6: every field of `LawfulCNum` is valid for EVERY binary64 value
+(`=` meaning equality of bit patterns), and the class is PROVED for two carriers: ℚ (`LawfulRat.lean`) and `Ieee ρ`
+(`IeeeCarrier.lean`: NaN, ±inf, ±0 and the representable rationals; operations = exact result delivered through any monotone
+idempotent rounding `ρ`, special values by IEEE 754 §6). For Lean's opaque `Float` (what the driver computes with) and C's
+`double` the one trusted statement is that they are such a carrier. The facts, as used:
 
-* **L1 `a + 0.0 = a`** — `a` = the running sum of `esl_rnd_DChoose` at the entry where it returns (needed when that entry is
-  `+0.0`), and `a = +0.0` (the row sum of an all-zero count row of `esl_rsq_{C,X}Markov1`);
+* **L1 `u < (a + 0.0)/n  ⇔  u < a/n`** and **`0.0 + 0.0 = 0.0`** — `a` = the running sum of `esl_rnd_DChoose` before a `+0.0` entry
+  (`a + 0.0 = a` bit for bit except `-0.0 + 0.0 = +0.0`; the monitor below evaluates the bitwise form on the running sums, which
+  are never `-0.0`: they start from `+0.0`), and the row sum of an all-zero count row of `esl_rsq_{C,X}Markov1`;
 * **L2 `0.0 / d = 0.0` for `0.0 < d`** — `d` = a positive row sum `p0[x]` of `Markov1` (`p[x][y] = p[x][y] / p0[x]` for a zero count);
 * **L3 `0.0 / (double) n = 0.0` for an integer `n > 0`** — `n = L` (`p[x] /= L` of `Markov0`, `p0[x] /= L` of `Markov1`);
 * **L4 `(x / 2^32 < 0.0 / norm) = false`** — `x / 2^32` = the value of `esl_random()`, `norm` = the sum of the vector.
-
-A fifth fact is needed only by the "never `esl_fatal`" theorems (`MarkovRat.lean`, proved over ℚ), not by the support theorems:
-* **L5 `norm / norm = 1.0`** for the finite positive sum `norm` of the vector (the scan's last running sum IS `norm`: same numbers
-  added in the same order), and **`x / 2^32 < 1.0`**.
+* **L5 `norm / norm = 1.0`** for the finite non-zero sum `norm` of the vector (the scan's last running sum IS `norm`: same numbers
+  added in the same order), and **`x / 2^32 < 1.0`** — used by the "never `esl_fatal`" theorems (`iid_never_fatal_ieee`; over ℚ in
+  `MarkovRat.lean`); theorems of the carrier: `ieee_div_self`, `ieee_random_lt_one`.
 
 `laws*` below replay the numeric pipeline of one call on a COPY of the generator state (the state is not advanced) and
 evaluate every one of these instances on the values the call is about to encounter — L1 on every running sum, not only
